@@ -56,3 +56,73 @@ verif_proof! { [C30 C22]
         kani::cover!(g.is_none() && len == FOOTER_SIZE, "rejected at full length");
     }
 }
+
+// ===========================================================================
+// C31: the backward footer scan against a naive reference scan.
+// memrchr is replaced by its functional specification (the real one dispatches
+// through a cpuid-selected function pointer that Kani cannot model) and the
+// TOC hash by the weak hash (any deterministic function).
+// ===========================================================================
+fn spec_memrchr(needle: u8, hay: &[u8]) -> Option<usize> {
+    let mut i = hay.len();
+    while i > 0 {
+        i -= 1;
+        if hay[i] == needle {
+            return Some(i);
+        }
+    }
+    None
+}
+fn weak_matches(f: &CommitFooter, toc: &[u8]) -> bool {
+    let w = weak_hash(toc);
+    let mut same = true;
+    let mut i = 0;
+    while i < 32 {
+        if w[i] != f.toc_hash[i] { same = false; }
+        i += 1;
+    }
+    same
+}
+/// naive reference: highest offset p such that bytes[p..p+56] decodes to a
+/// footer whose toc_len is in 1..=p and whose hash matches the toc_len bytes before p
+fn reference_scan(bytes: &[u8]) -> Option<usize> {
+    if bytes.len() < FOOTER_SIZE {
+        return None;
+    }
+    let mut p = bytes.len() - FOOTER_SIZE + 1;
+    while p > 0 {
+        p -= 1;
+        if let Some(f) = CommitFooter::decode(&bytes[p..p + FOOTER_SIZE]) {
+            if f.toc_len >= 1 && f.toc_len <= p as u64 {
+                let toc = &bytes[p - f.toc_len as usize..p];
+                if weak_matches(&f, toc) {
+                    return Some(p);
+                }
+            }
+        }
+    }
+    None
+}
+
+fn footer_scan<const N: usize>() {
+    let buf: [u8; N] = kani::any();
+    let got = find_last_valid_footer(&buf);
+    let want = reference_scan(&buf);
+    match (&got, want) {
+        (Some(s), Some(p)) => {
+            assert!(s.footer_offset == p, "[C31] footer scan did not return the valid footer ending at the highest offset");
+            assert!(s.toc_offset + s.toc_bytes.len() == s.footer_offset && s.footer.toc_len as usize == s.toc_bytes.len(), "[C31] returned TOC bytes are not the bytes the footer describes");
+            kani::cover!(true, "a valid footer found");
+        }
+        (None, None) => {}
+        (Some(_), None) => assert!(false, "[C31] footer scan returned a footer that is not valid (magic, length or hash inconsistent)"),
+        (None, Some(_)) => assert!(false, "[C31] footer scan missed a valid footer"),
+    }
+    leak(got);
+}
+verif_proof! { [C31 C20 C22]
+    #[kani::unwind(60)]
+    #[kani::stub(memchr::memrchr, spec_memrchr)]
+    #[kani::stub(CommitFooter::hash_matches, weak_matches)]
+    fn c31_footer_scan_60() { footer_scan::<60>(); }
+}
